@@ -163,10 +163,19 @@ def login_case(ctx, case):
                     conn.connect()
             conn.register_exception_handler(again)
         if case.get('takeover'):
+            # the handler answers itself; forms: True/'explicit' (successful
+            # given), 'short' (only data given: "successful" is implied by
+            # data being present), each with a payload or with b''
+            form = case['takeover'] if isinstance(case['takeover'], str) \
+                else 'explicit'
+
             def take(p):
+                data = b'' if form.endswith('_empty') else \
+                    b'ok:' + p.channel.encode('utf-8')
+                kw = {'successful': True} if form.startswith('explicit') \
+                    else {}
                 conn.write_packet(serverbound.login.PluginResponsePacket(
-                    message_id=p.message_id, successful=True,
-                    data=b'ok:' + p.channel.encode('utf-8')))
+                    message_id=p.message_id, data=data, **kw))
                 raise IgnorePacket
             conn.register_packet_listener(
                 take, clientbound.login.PluginRequestPacket, early=True)
@@ -244,7 +253,8 @@ def login_case(ctx, case):
     want_pl = []
     for s in plugins:
         if case.get('takeover'):
-            want_pl.append((s[1], True, b'ok:' + s[2].encode('utf-8')))
+            want_pl.append((s[1], True, b'' if str(case['takeover']).endswith(
+                '_empty') else b'ok:' + s[2].encode('utf-8')))
         else:
             want_pl.append((s[1], False, None))
     got_pl = [(r['message_id'], r['successful'], r['data'])
@@ -275,7 +285,7 @@ def login_case(ctx, case):
             if enc is not None and enc[3] != '-':
                 want_join = [rsa.java_hex(hashlib.sha1(
                     enc[3].encode('utf-8') + srv.secret +
-                    rsa.key(enc[1])['der']).digest())]
+                    srv.enc_key_bytes).digest())]
             if tok.joins != want_join:
                 ctx.fail('login', 'L5-session-join', case, tok.joins,
                          want_join)
@@ -397,7 +407,10 @@ def steps_strategy(version):
     enc = st.tuples(st.just('encrypt'), st.sampled_from([1024, 1024, 2048]),
                     st.binary(min_size=1, max_size=64),
                     st.sampled_from(['-', '', 'a' * 20, 'srv',
-                                     '0123456789abcdef0123']))
+                                     '0123456789abcdef0123']),
+                    # the key in any DER form the client's parser accepts
+                    st.sampled_from(['spki', 'spki', 'pkcs1',
+                                     'spki_no_null']))
     comp = st.tuples(st.just('compress'),
                      st.sampled_from([0, 1, 64, 256, 2 ** 31 - 1, -1]))
     plug = st.tuples(st.just('plugin'),
@@ -446,7 +459,8 @@ def case_strategy(versions):
         return st.fixed_dictionaries({
             'version': st.just(v), 'steps': steps_strategy(v),
             'terminal': terminal_strategy(), 'token': st.booleans(),
-            'takeover': st.booleans(),
+            'takeover': st.sampled_from([False, False, True, 'explicit_empty',
+                                         'short', 'short_empty']),
             'plan': st.one_of(st.just('whole'), st.just('one'),
                               st.lists(st.integers(1, 40), min_size=1,
                                        max_size=5)),
@@ -467,9 +481,9 @@ def t_fixed(ctx, versions):
             [],
             [('encrypt', 1024, tokn, '-')],
             [('encrypt', 1024, tokn, 'a' * 20), ('compress', 256)],
-            [('compress', 0), ('encrypt', 2048, tokn * 16, '')],
+            [('compress', 0), ('encrypt', 2048, tokn * 16, '', 'pkcs1')],
             [('plugin', 0, 'a:b', b'', True),
-             ('encrypt', 1024, tokn, 'srv'),
+             ('encrypt', 1024, tokn, 'srv', 'spki_no_null'),
              ('plugin', 2 ** 31 - 1, 'a:b', b'x' * 300, False),
              ('compress', 64), ('plugin', 5, 'é', b'q', True)],
             [('compress', -1), ('plugin', 1, 'a:b', b'zz', False)],
@@ -478,7 +492,8 @@ def t_fixed(ctx, versions):
             for term in (('success',),
                          ('disconnect', ('json_text', 'nope')),
                          ('disconnect', ('outdated_server', '1.8.9'))):
-                for token, take in ((False, False), (True, True)):
+                for token, take in ((False, False), (True, True),
+                                    (False, 'short_empty')):
                     login_case(ctx, {
                         'version': v, 'steps': sc, 'terminal': term,
                         'token': token, 'takeover': take, 'plan': 'whole',
